@@ -27,7 +27,7 @@ def frag_count(md, d, F, lp, hdr=6):
 
 class C05(Prop):
     id = 'C05'
-    lean_modules = ['RSocketModel.Props.C05']
+    lean_modules = ['RSocketModel.Props.C05', 'RSocketModel.Props.C05Sites']
     technique = 'Lean 4 proof (invariant over all enqueue/step interleavings; measure for drain) + differential correspondence with the real sender task'
     level_text = ('c05_stream_order / c05_wire_is_prefix / c05_every_prefix (per-stream order and contiguity at every moment, all interleavings of queueing and '
                   'sender steps), c05_drains and c05_drained_exact (no starvation, everything sent once) are kernel-checked on a model of the send queue; '
